@@ -32,6 +32,12 @@ def _apply(root, change):
         if r.returncode != 0:
             return 'patch does not apply (the tree moved on)'
         return None
+    if kind == 'seeded':
+        pf = os.path.join(VERIF, 'seeded', change[1], 'patch.diff')
+        r = subprocess.run(['patch', '-p1', '-s', '-f', '-d', root, '-i', pf], capture_output=True, text=True)
+        if r.returncode != 0:
+            return 'seeded patch does not apply (the tree moved on)'
+        return None
     _k, rel, old, new = change
     p = os.path.join(root, rel)
     if not os.path.exists(p):
@@ -85,8 +91,22 @@ def _one(args):
         shutil.rmtree(d, ignore_errors=True)
 
 
+def seeded_items():
+    """Kept seeded changes (/verif/seeded/<id>/): each must be reported by the check of its own property."""
+    import json
+    out = []
+    d = os.path.join(VERIF, 'seeded')
+    if os.path.isdir(d):
+        for sid in sorted(os.listdir(d)):
+            mp = os.path.join(d, sid, 'meta.json')
+            if os.path.exists(mp) and os.path.exists(os.path.join(d, sid, 'patch.diff')):
+                prop = json.load(open(mp)).get('property')
+                out.append((prop, 'seeded:' + sid, ('seeded', sid), prop))
+    return out
+
+
 def run_all(props=None, repo_root='/repo', jobs=None):
-    items = [(p, i, c, e, repo_root) for (p, i, c, e) in MUTANTS + TWINS if props is None or p in props]
+    items = [(p, i, c, e, repo_root) for (p, i, c, e) in MUTANTS + TWINS + seeded_items() if props is None or p in props]
     jobs = jobs or min(16, os.cpu_count() or 4)
     if len(items) <= 2 or jobs == 1:
         return [_one(x) for x in items]
@@ -96,7 +116,7 @@ def run_all(props=None, repo_root='/repo', jobs=None):
 
 def run_for(prop, repo_root='/repo'):
     res = run_all({prop}, repo_root)
-    muts = [r for r in res if any(r[1] == m[1] and m[0] == prop for m in MUTANTS)]
+    muts = [r for r in res if any(r[1] == m[1] and m[0] == prop for m in MUTANTS) or r[1].startswith('seeded:')]
     twins = [r for r in res if any(r[1] == t[1] and t[0] == prop for t in TWINS)]
     return {
         'mutants': len(muts),
